@@ -147,10 +147,10 @@ func diffKinds(d []string) string {
 // settle waits until two consecutive fingerprints agree (bounded) and returns the last.
 func (e *env) settle() *fingerprint {
 	prev := e.takeFingerprint()
-	for i := 0; i < 20; i++ {
-		time.Sleep(400 * time.Millisecond)
+	for i := 0; i < 30; i++ {
+		time.Sleep(250 * time.Millisecond)
 		cur := e.takeFingerprint()
-		if len(prev.diff(cur)) == 0 && i >= 2 {
+		if len(prev.diff(cur)) == 0 {
 			return cur
 		}
 		prev = cur
